@@ -64,13 +64,17 @@ class Speaker(metaclass=ABCMeta):
 
         orb.event = None
         results = []
+        backward = False
         for listener in listeners:
+            if listener.prev is not None and orb.date < listener.prev.date:
+                backward = True
+
             if listener.check(orb):
                 results.append(self._bisect(listener.prev, orb, listener))
 
             # Saving of the current value for the next iteration
             listener.prev = orb
-        return sorted(results, key=lambda x: x.date)
+        return sorted(results, key=lambda x: x.date, reverse=backward)
 
     def _bisect(self, begin, end, listener):
         """This method search for the zero-crossing of the watched parameter
